@@ -384,7 +384,7 @@ impl DocGen {
         if self.shape.chance(0.3) {
             // names from a small shared pool, duplicates allowed: statements in different documents
             // (and calls) share names; a list that binds a name twice must not be reordered
-            const POOL: &[&str] = &["widget", "helper", "alpha", "beta", "util", "core", "zeta", "main", "io", "fmt"];
+            const POOL: &[&str] = &["widget", "helper", "alpha", "beta", "util", "core", "zeta", "main", "io", "fmt", "\u{432}", "\u{431}", "\u{430}", "\u{540d}", "\u{524d}"];
             let n = self.shape.range(2, 6);
             let mut items: Vec<String> = Vec::new();
             for _ in 0..n {
